@@ -336,7 +336,9 @@ func (s *System) findMailbox(ref *Ref) vivid.Mailbox {
 		}
 		if s.remotingServer == nil {
 			s.Logger().Warn("remote disabled, remote actor ref not allowed", log.String("ref", ref.String()))
-			return s.Mailbox()
+			// 不能以根 Actor 的 Mailbox 兜底：根 Actor 会将该消息当作发给自身的消息处理，系统消息（如 Kill）将作用于根 Actor 自身，
+			// 即对一个本系统根本无法到达的远程引用执行 Kill 会终止整个 ActorSystem。交由死信邮箱处理
+			return deadLetterMailbox{system: s}
 		}
 		return s.remotingServer.GetRemotingMailboxCentral().GetOrCreate(ref.address, s)
 	}
